@@ -5,17 +5,8 @@ here = os.path.dirname(os.path.dirname(os.path.abspath(__file__)))
 
 TRUST = "trusted base: kxcheck's rules and engines, go/types + go/ssa (x/tools v0.29.0); "
 
-# id -> (category, level text, design ref, level_note, technique)
-CLAIMED = {
- "C19": ("other",
-   "Every clause of the property is decided from the registry literal, the types of package dpt and the SSA of Produce/ListSupportedTypes (1058 obligations); 'other' instead of 'proof' only because one obligation (key \"14.1200\") is a recorded known finding.",
-   "DESIGN.md §3 C19", TRUST + "reflect.New/TypeOf contracts; Go map read semantics",
-   "AST/type queries over the registry literal + SSA def-use of Produce + package-wide who-writes scan"),
- "C17": ("other",
-   "Decides exactly one necessary condition: every send on Tunnel.inbound / Router.inbound runs in a goroutine started once per client, and the group layer forwards synchronously, one send per received message. Breaching it breaks ordering (demonstrated: findings/c17_reorder_test.go). The two per-message overflow goroutines of today's tree are recorded known findings. Sufficiency (FIFO) is not decided.",
-   "DESIGN.md §3 C17", TRUST + "kxcheck call graph (static callees, closures, sync.Once.Do, time.AfterFunc, CHA)",
-   "goroutine-context analysis over the channel-operation index and the call graph"),
-}
+CLAIMS = json.load(open(os.path.join(here, "tools", "claims.json")))
+CLAIMED = {k: (v["category"], v["text"], v["design_ref"], v["level_note"], v["technique"]) for k, v in CLAIMS.items()}
 
 NOT_YET = "check not built yet in this round (static-analysis design exists in DESIGN.md); not claimed until it is"
 NOT_APPLICABLE = {
